@@ -470,7 +470,7 @@ pub fn gen_timed(r: &mut Rng, i: u64) -> String {
 }
 
 /// Every shape of an idle list of 1-3 connections - the k oldest expired, any subset closed by the peer - followed by
-/// two checkouts (72 cases).
+/// two checkouts (80 cases), and lists that fill a small idle limit, expire as a whole and receive further connections (11 cases).
 pub fn exhaustive_idle() -> Vec<String> {
     let mut out = vec![];
     for n in 1..=3u64 { for k in 0..=n { for mask in 0..(1u64 << n) { for cap in 0..2 {
@@ -487,6 +487,18 @@ pub fn exhaustive_idle() -> Vec<String> {
         ops.push("mark".into()); ops.push("run".into()); ops.push("mark".into()); ops.push("mark".into());
         out.push(format!("pool 50 32 {cap} 0 ; {}", ops.join(" ; ")));
     } } } }
+    // a small idle limit: the list fills up, the whole of it expires, further connections are released
+    for (n, maxes) in [(2u64, &[1u64][..]), (3, &[1, 2][..])] { for &max in maxes { for k in 0..=n {
+        let mut ops: Vec<String> = Vec::new();
+        for q in 0..n { ops.push(format!("i {q} 0 0")); ops.push(format!("p {q}")); ops.push(format!("d {q} ok0")); ops.push(format!("p {q}")); }
+        for q in 0..n {
+            ops.push(format!("f {q}")); ops.push(format!("cr {q}")); ops.push("run".into());
+            if q + 1 == k { ops.push("t 150".into()); }
+        }
+        ops.push("i 10 0 0".into()); ops.push("p 10".into()); ops.push("d 10 ok0".into()); ops.push("p 10".into());
+        ops.push("mark".into()); ops.push("run".into()); ops.push("mark".into()); ops.push("mark".into());
+        out.push(format!("pool 50 {max} 0 0 ; {}", ops.join(" ; ")));
+    } } }
     out
 }
 
